@@ -199,12 +199,15 @@ class GenCtx:
         p = self.profile
         if not p.named_sets:
             return None
+        # (set names in upper, lower and mixed case, with a blank: all are plain IDENT text; 'main' and 'Main' differ)
         if p.set_names_per_type_differ:
-            return draw(st.sampled_from([None, 'S1', 'S2']))
+            return draw(st.sampled_from([None, 'S1', 'S2'] if p.upper_names else [None, 'S1', 'S2', 's1', 'Main set']))
         if kind == 'origin' and p.origin_sets_differ:
-            return draw(st.sampled_from([None, 'ORIG-A', 'ORIG-B']))
+            return draw(st.sampled_from([None, 'ORIG-A', 'ORIG-B'] if p.upper_names else [None, 'ORIG-A', 'ORIG-B', 'orig-a']))
         if kind not in self.set_choice:
-            self.set_choice[kind] = draw(st.sampled_from([None, None, 'SET-' + kind.upper()[:6]]))
+            self.set_choice[kind] = draw(st.sampled_from(
+                [None, None, 'SET-' + kind.upper()[:6]] if p.upper_names else
+                [None, None, 'SET-' + kind.upper()[:6], 'set-' + kind[:6], 'Set of ' + kind[:4]]))
         return self.set_choice[kind]
 
     def add(self, op):
